@@ -56,9 +56,10 @@ JudgeReader(r) ==
                 \cup (IF r.kind = 0 THEN
                          (IF r.text # (IF p.fields.text THEN 1 ELSE 0) \/ <<r.time_lo, r.time_hi>> # p.fields.time \/ r.xflags # p.fields.xflags \/ r.os # p.fields.os
                              THEN {"H4-gzip-fixed-fields-differ"} ELSE {})
-                         \cup (IF p.fields.has_extra /\ (r.extra_len # Len(p.fields.extra) \/ r.extra # p.fields.extra) THEN {"H4-gzip-extra-differs"} ELSE {})
-                         \cup (IF p.fields.has_name /\ (r.name # p.fields.name \/ r.name_terminated # 1) THEN {"H4-gzip-name-differs"} ELSE {})
-                         \cup (IF p.fields.has_comment /\ (r.comment # p.fields.comment \/ r.comment_terminated # 1) THEN {"H4-gzip-comment-differs"} ELSE {})
+                         \* (a field whose user buffer is NULL is skipped by the reader: nobuf bit 1 name, 2 comment, 4 extra)
+                         \cup (IF p.fields.has_extra /\ (r.nobuf \div 4) % 2 = 0 /\ (r.extra_len # Len(p.fields.extra) \/ r.extra # p.fields.extra) THEN {"H4-gzip-extra-differs"} ELSE {})
+                         \cup (IF p.fields.has_name /\ r.nobuf % 2 = 0 /\ (r.name # p.fields.name \/ r.name_terminated # 1) THEN {"H4-gzip-name-differs"} ELSE {})
+                         \cup (IF p.fields.has_comment /\ (r.nobuf \div 2) % 2 = 0 /\ (r.comment # p.fields.comment \/ r.comment_terminated # 1) THEN {"H4-gzip-comment-differs"} ELSE {})
                       ELSE (IF r.info # p.fields.info \/ r.level # p.fields.level \/ r.dict_flag # (IF p.fields.dict_flag THEN 1 ELSE 0) THEN {"H4-zlib-fields-differ"} ELSE {})
                            \cup (IF p.fields.dict_flag /\ <<r.id_lo, r.id_hi>> # p.fields.dict_id THEN {"H4-zlib-DICTID-not-most-significant-byte-first"} ELSE {})))
         ELSE IF p.st = "ok" THEN {}                                       \* undersized buffers without growth: overflow is the expected end
